@@ -1,13 +1,16 @@
 #!/bin/bash
-# usage: run_seed.sh <seed-id> <PROP> [<PROP>...]  : apply seeded patch to /repo, run the quick checks, undo the patch.
+# usage: run_seed.sh <seed-id> <PROP> [<PROP>...]
+# Applies the seeded patch in a scratch worktree of /repo (never in /repo itself), runs the quick checks against it
+# (VERIF_REPO), removes the worktree.  Evidence/replay files of these runs go to a scratch dir, not /verif/evidence.
 ID=$1; shift
-cd /repo || exit 3
-if ! git diff --quiet; then echo "/repo has local changes; refusing"; exit 3; fi
-git apply /verif/seeded/$ID/patch.diff || { echo "patch does not apply"; exit 3; }
-trap 'git -C /repo checkout -- .' EXIT
+WT=/tmp/seedrepo-$ID
+git -C /repo worktree remove --force $WT 2>/dev/null
+git -C /repo worktree add -q --detach $WT HEAD || exit 3
+trap 'git -C /repo worktree remove --force '$WT' 2>/dev/null' EXIT
+( cd $WT && git apply /verif/seeded/$ID/patch.diff ) || { echo "patch does not apply"; exit 3; }
 cd /verif
 for P in "$@"; do
-  out=$(bin/vp check $P --tier ${TIER:-quick} 2>&1); rc=$?
+  out=$(VERIF_REPO=$WT VERIF_EVIDENCE_DIR=/tmp/seed-evidence bin/vp check $P --tier ${TIER:-quick} 2>&1); rc=$?
   echo "SEED $ID check $P -> exit $rc"
-  echo "$out" | grep -E "VIOLATION|INCONCLUSIVE|violation|KNOWN" | head -8
+  echo "$out" | grep -E "VIOLATION|INCONCLUSIVE|violation|KNOWN" | head -6
 done
